@@ -3,8 +3,10 @@
 package gen
 
 import (
+	"fmt"
 	"math"
 	"math/rand"
+	"strings"
 
 	"verif/internal/gt"
 )
@@ -27,7 +29,9 @@ type Syntax struct {
 	// Attr allows attribute expressions.
 	Attr bool
 	// Strings to draw string literals from.
-	Strs []string
+	// HexSpell: some integer literals are written in hexadecimal
+	HexSpell bool
+	Strs     []string
 	// CallGen, when set, produces every call expression.
 	CallGen func(d int) *gt.T
 	// BoundedLoops: three-clause loops count a private counter up to a small
@@ -67,6 +71,17 @@ func (s *Syntax) intLit() *gt.T {
 		return gt.Int(-math.MaxInt64)
 	case 5:
 		return gt.Int(int64(1) << uint(r.Intn(62)))
+	case 6:
+		if s.HexSpell {
+			// hexadecimal spellings, in particular ones whose last digit is e / E
+			v := []int64{0x1e, 0xfe, 0xee, 0xabcde, 0x7E, 0xE, 0x10, 0xdead, 0x1e2e}[r.Intn(9)]
+			sp := fmt.Sprintf("%x", v)
+			if r.Intn(2) == 0 {
+				sp = strings.ToUpper(sp)
+			}
+			return &gt.T{K: gt.KInt, I: v, Spell: []string{"0x", "0X"}[r.Intn(2)] + sp}
+		}
+		fallthrough
 	default:
 		return gt.Int(int64(r.Intn(1000)))
 	}
